@@ -113,15 +113,15 @@ Proof.
     rewrite (cntZ_split _ lo (fst g) hi) by lia.
     rewrite (cntZ_split _ (fst g) (snd g) hi) by lia.
     rewrite (cntZ_false _ lo (fst g)).
-    2:{ intros j Hj. rewrite is_missing_cons. rewrite (chain_below _ _ j Hch) by lia. unfold contains. lia. }
-    rewrite (cntZ_true _ (fst g) (snd g)) by (try lia; intros j Hj; rewrite is_missing_cons; unfold contains; lia).
+    2:{ intros j Hj. rewrite is_missing_cons. rewrite (chain_below _ _ j Hch) by lia. rewrite ?contains_unfold. lia. }
+    rewrite (cntZ_true _ (fst g) (snd g)) by (try lia; intros j Hj; rewrite is_missing_cons; rewrite ?contains_unfold; lia).
     destruct (Z.eq_dec (snd g) hi) as [He|He].
     + rewrite (cntZ_empty _ (snd g) hi) by lia. rewrite (cntZ_empty _ (snd g + 1) hi) by lia. lia.
     + rewrite (cntZ_split _ (snd g) (snd g + 1) hi) by lia.
       rewrite (cntZ_false _ (snd g) (snd g + 1)).
-      2:{ intros j Hj. rewrite is_missing_cons. rewrite (chain_below _ _ j Hch) by lia. unfold contains. lia. }
+      2:{ intros j Hj. rewrite is_missing_cons. rewrite (chain_below _ _ j Hch) by lia. rewrite ?contains_unfold. lia. }
       rewrite (cntZ_ext (is_missing (g :: r)) (is_missing r) (snd g + 1) hi).
-      2:{ intros j Hj. rewrite is_missing_cons. unfold contains. lia. }
+      2:{ intros j Hj. rewrite is_missing_cons. rewrite ?contains_unfold. lia. }
       lia.
 Qed.
 
@@ -131,7 +131,7 @@ Proof.
   intros c n gs Hc [Hwf|[-> ->]].
   - apply sum_wf with (lo := n - c + 1); [exact Hwf|lia].
   - cbn [sum_missing fold_right fst snd]. symmetry.
-    rewrite cntZ_false; [lia|]. intros j Hj. cbn. unfold contains. cbn. lia.
+    rewrite cntZ_false; [lia|]. intros j Hj. cbn. rewrite ?contains_unfold. cbn. lia.
 Qed.
 
 Lemma mod_pos : forall c n, 0 < c ->
@@ -241,23 +241,23 @@ Proof.
   - destruct (is_missing (gaps b) old) eqn:Eo.
     + (* the window starts inside a gap: it is the first gap, and the slot after it is valid *)
       destruct (f_gaps _ _ _ F) as [Hwf|[_ Hs]].
-      2:{ rewrite Hs in Eo. cbn in Eo. unfold contains in Eo. cbn in Eo. lia. }
+      2:{ rewrite Hs in Eo. cbn in Eo. rewrite ?contains_unfold in Eo. cbn in Eo. lia. }
       destruct (gaps b) as [|g r] eqn:Eg; [discriminate|].
       cbn [gaps_wf] in Hwf. fold old in Hwf. destruct Hwf as (H1 & H2 & H3 & H4).
       pose proof (wf_chain _ _ _ H4) as Hch.
       assert (Hfst : fst g = old).
-      { rewrite is_missing_cons in Eo. rewrite (chain_below _ _ old Hch) in Eo by lia. unfold contains in Eo. lia. }
+      { rewrite is_missing_cons in Eo. rewrite (chain_below _ _ old Hch) in Eo by lia. rewrite ?contains_unfold in Eo. lia. }
       rewrite min_end_head.
       2:{ intros x Hx. destruct (chain_starts _ _ _ Hch Hx). lia. }
       assert (He : snd g <= n).
       { destruct (Z.eq_dec (snd g) (n + 1)) as [E|E]; [exfalso|lia].
         assert (cntZ (is_missing (g :: r)) old (n + 1) = n + 1 - old).
-        { apply cntZ_true; [lia|]. intros j Hj. rewrite is_missing_cons. unfold contains. lia. }
+        { apply cntZ_true; [lia|]. intros j Hj. rewrite is_missing_cons. rewrite ?contains_unfold. lia. }
         lia. }
       symmetry. apply find_zrange_some; [lia| |].
-      * intros j Hj. rewrite Hsome by lia. rewrite is_missing_cons. unfold contains. lia.
+      * intros j Hj. rewrite Hsome by lia. rewrite is_missing_cons. rewrite ?contains_unfold. lia.
       * rewrite Hsome by lia. rewrite is_missing_cons. rewrite (chain_below _ _ (snd g) Hch) by lia.
-        unfold contains. lia.
+        rewrite ?contains_unfold. lia.
     + symmetry. apply find_zrange_some; [lia|intros; lia|]. rewrite Hsome by lia. rewrite Eo. reflexivity.
 Qed.
 
@@ -352,10 +352,10 @@ Proof.
               nth i d1 None = if contains g (s + Z.of_nat i) then f else nth i d None).
     { unfold d1. destruct (si <? ei) eqn:E.
       - destruct (fill_from_spec d 0 si ei f) as [L N]. split; [exact L|].
-        intros i Hi. rewrite N by exact Hi. unfold contains.
+        intros i Hi. rewrite N by exact Hi. rewrite ?contains_unfold.
         destruct ((si <=? 0 + Z.of_nat i) && (0 + Z.of_nat i <? ei)) eqn:E1;
           destruct ((fst g <=? s + Z.of_nat i) && (s + Z.of_nat i <? snd g)) eqn:E2; try reflexivity; lia.
-      - split; [reflexivity|]. intros i Hi. unfold contains.
+      - split; [reflexivity|]. intros i Hi. rewrite ?contains_unfold.
         destruct ((fst g <=? s + Z.of_nat i) && (s + Z.of_nat i <? snd g)) eqn:E2; [lia|reflexivity]. }
     destruct H1 as [L1 N1]. destruct (IH d1 f s) as [L N].
     split; [congruence|]. intros i Hi. rewrite N by lia. rewrite is_missing_cons, N1 by exact Hi.
@@ -422,7 +422,7 @@ Proof. intros n [s|] d Hn Hd; cbn [slice_adj]; [destruct (s <? 0) eqn:E; lia|lia
 (* ------------------------------------------------------------------ normalize_timestamp *)
 Lemma norm_slot_grid : forall p a k, 0 < p -> norm_slot p a (ts_of p a k) = k.
 Proof.
-  intros p a k Hp. unfold norm_slot, ts_of. replace (a + k * p - a) with (k * p) by lia.
+  intros p a k Hp. rewrite norm_slot_unfold by exact Hp. cbv zeta. unfold ts_of. replace (a + k * p - a) with (k * p) by lia.
   rewrite Z.mod_mul by lia. rewrite Z.div_mul by lia. reflexivity.
 Qed.
 
@@ -431,7 +431,7 @@ Lemma norm_slot_cases : forall p a t, 0 < p ->
   (norm_slot p a t = n \/ norm_slot p a t = n + 1) /\
   (norm_slot p a t = n + 1 <-> r <> 0 /\ ((td_half p = r /\ n mod 2 <> 0) \/ td_half p < r)).
 Proof.
-  intros p a t Hp n r. unfold norm_slot. fold n r.
+  intros p a t Hp n r. rewrite norm_slot_unfold by exact Hp. cbv zeta. fold n r.
   destruct (negb (r =? 0) && ((td_half p =? r) && negb (n mod 2 =? 0) || (td_half p <? r))) eqn:E; split; lia.
 Qed.
 
